@@ -7,7 +7,7 @@ from harness import table_scorers as ts
 from harness.engine import coq_bad_cases, coq_eval, coq_list, pairs_nat, zlit
 
 INFO = {
-    "extra_targets": ["Check/CbsCheck.vo", "Check/GenericCheck.vo", "Check/FloatRunCheck.vo"],
+    "extra_targets": ["Check/CbsCheck.vo", "Check/GenericCheck.vo", "Check/FloatRunCheck.vo", "Check/FloatRunCheck2.vo"],
     "level": "proof",
     "rule": "integer local anomaly scores (formula columns / integer inside-vs-outside mean contrasts of data with epidemic bumps, "
             "p = 1..3) through the real CircularBinarySegmentation with integer threshold_: m in 1..3, n in [2m, 22], "
